@@ -567,7 +567,8 @@ class ManifestRecursiveLoader:
         """
         real_path = os.path.join(self.root_directory, relpath)
         path_entry = self.find_path_entry(relpath)
-        return verify_path(real_path, path_entry)
+        return verify_path(real_path, path_entry,
+                           expected_dev=self.manifest_device)
 
     def assert_path_verifies(self, relpath):
         """
